@@ -14,7 +14,7 @@ From Qryn Require Import model.TqSql model.Traceql model.TraceqlPlan model.Trace
      model.TraceqlCase proofs.TraceqlIndexSearchProofs proofs.TraceqlIndexCorrectProofs proofs.TraceqlGroupedProofs
      proofs.TraceqlTopkProofs proofs.TraceqlCorrectProofs proofs.TraceqlAggProofs proofs.TraceqlExamples
      proofs.TraceqlChainSem proofs.TraceqlChainSql proofs.TraceqlChainComb proofs.TraceqlChainProofs proofs.TraceqlChainPlan
-     model.TraceqlKey proofs.TraceqlKeyProofs proofs.TraceqlKeyCorrect.
+     model.TraceqlKey proofs.TraceqlKeyProofs proofs.TraceqlKeyCorrect proofs.TraceqlUnquoteProofs.
 Import ListNotations.
 Open Scope string_scope.
 
@@ -502,3 +502,16 @@ Theorem traceql_correct_chain_grammar : forall re_match parse_float hash64 (c : 
               /\ result_ok c (traceql_sem re_match parse_float false c d q) res = true.
 Proof. exact TraceqlKeyCorrect.traceql_correct_chain_grammar. Qed.
 Print Assumptions traceql_correct_chain_grammar.
+
+(* 23 (round 8). The value of a string literal: on the modelled domain of QuotedString.Unquote (no backslash, printable ASCII)
+   exactly the ONE enclosing pair of quote characters goes and the content comes back byte for byte -- also a content that
+   begins or ends with the other quote character. 23r: a cut-set trim of both quote characters (seeded C11-h) is another function. *)
+Theorem unquote_keeps_the_content : forall (q : Ascii.ascii) (b : string),
+  is_quote q = true -> Traceql.plain b = true -> Traceql.unquote_plain (String q (b ++ String q "")) = Some b.
+Proof. exact TraceqlUnquoteProofs.unquote_plain_keeps_content. Qed.
+Print Assumptions unquote_keeps_the_content.
+
+Theorem unquote_is_not_a_cut_set_trim :
+  exists tok, Traceql.unquote_plain tok = Some """ok""" /\ trim_quotes tok = "ok".
+Proof. exact TraceqlUnquoteProofs.trim_is_not_unquote. Qed.
+Print Assumptions unquote_is_not_a_cut_set_trim.
